@@ -19,26 +19,46 @@ package analyzer
 // own fact type, whose value is that result; otherwise it exports nothing.
 //@ macro func exportsOnce(pass *analysis.Pass, n0 int, tag typetag) bool = hasAnn(pass) ? (pass.$nexports == n0 + 1 && pass.$lastfact != nil && dyntype(pass.$lastfact) == tag && *cast(pass.$lastfact, *annotations.PackageAnnotations) == annOf(pass)) : pass.$nexports == n0
 
+// The glue (C01-C05, C07, C08, C17): a checker's Run passes the driver's inputs to its Check function and that function's
+// result, unchanged, to its Report function together with the ignore set of the IgnoreReader - on every path on which
+// the annotation reader's result is available; otherwise it reports nothing. ($ret("pkg.F#k"): the result of that call
+// site on the path at hand; $called: the call site was executed.)
 //@ func runImmutableChecker
-//@   props C06 C17 C10
+//@   props C06 C17 C10 C01 C07 C08
 //@   requires driverOK(pass)
 //@   ensures exportsOnce(pass, old(pass.$nexports), tagof(*annotations.ImmutableCheckerFact))
 //@   ensures result0 == nil && result1 == nil
+//@   at call immutable.CheckImmutable#1 assert $arg0 == cfgOf(pass) && $arg1 == pass && *$arg2 == annOf(pass)
+//@   at call immutable.ReportViolations#1 assert $arg0 == pass && $arg1 == $ret("immutable.CheckImmutable#1") && $arg2 == ignOf(pass)
+//@   ensures hasAnn(pass) ==> $called("immutable.ReportViolations#1")
+//@   ensures !hasAnn(pass) ==> pass.$reports == old(pass.$reports)
 //@ func runConstructorChecker
-//@   props C06 C17 C10
+//@   props C06 C17 C10 C02 C07 C08
 //@   requires driverOK(pass)
 //@   ensures exportsOnce(pass, old(pass.$nexports), tagof(*annotations.ConstructorCheckerFact))
 //@   ensures result0 == nil && result1 == nil
+//@   at call constructor.CheckConstructor#1 assert $arg0 == cfgOf(pass) && $arg1 == pass && *$arg2 == annOf(pass)
+//@   at call constructor.ReportViolations#1 assert $arg0 == pass && $arg1 == $ret("constructor.CheckConstructor#1") && $arg2 == ignOf(pass)
+//@   ensures hasAnn(pass) ==> $called("constructor.ReportViolations#1")
+//@   ensures !hasAnn(pass) ==> pass.$reports == old(pass.$reports)
 //@ func runTestOnlyChecker
-//@   props C06 C17 C10
+//@   props C06 C17 C10 C03 C07 C08
 //@   requires driverOK(pass)
 //@   ensures exportsOnce(pass, old(pass.$nexports), tagof(*annotations.TestOnlyCheckerFact))
 //@   ensures result0 == nil && result1 == nil
+//@   at call testonly.CheckTestOnly#1 assert $arg0 == cfgOf(pass) && $arg1 == pass && *$arg2 == annOf(pass) && $arg3 == ignOf(pass)
+//@   at call testonly.ReportViolations#1 assert $arg0 == pass && $arg1 == $ret("testonly.CheckTestOnly#1")
+//@   ensures hasAnn(pass) ==> $called("testonly.ReportViolations#1")
+//@   ensures !hasAnn(pass) ==> pass.$reports == old(pass.$reports)
 //@ func runPackageOnlyChecker
-//@   props C06 C17 C10
+//@   props C06 C17 C10 C04 C07 C08
 //@   requires driverOK(pass)
 //@   ensures exportsOnce(pass, old(pass.$nexports), tagof(*annotations.PackageOnlyCheckerFact))
 //@   ensures result0 == nil && result1 == nil
+//@   at call packageonly.CheckPackageOnly#1 assert $arg0 == cfgOf(pass) && $arg1 == pass && *$arg2 == annOf(pass) && $arg3 == ignOf(pass)
+//@   at call packageonly.ReportViolations#1 assert $arg0 == pass && $arg1 == $ret("packageonly.CheckPackageOnly#1")
+//@   ensures hasAnn(pass) ==> $called("packageonly.ReportViolations#1")
+//@   ensures !hasAnn(pass) ==> pass.$reports == old(pass.$reports)
 
 // the ignore reader hands a well-formed suppression set to the checkers
 //@ func runIgnoreReader
@@ -58,7 +78,7 @@ package analyzer
 // the annotation reader: its result is exactly what the doc comments of the kept files demand (relations of
 // annotations.ReadAllAnnotations) and is exported once as the package's fact, before anything else can return
 //@ func runAnnotationReader
-//@   props C06 C09 C15 C14 C10
+//@   props C06 C09 C15 C14 C10 C01 C02 C03 C04 C05
 //@   requires driverCfg(pass) && pass.TypesInfo != nil
 //@   ensures result1 == nil && result0 != nil && dyntype(result0) == tagof(annotations.PackageAnnotations)
 //@   ensures pass.$nexports == old(pass.$nexports) + 1 && pass.$lastfact != nil && dyntype(pass.$lastfact) == tagof(*annotations.AnnotationReaderFact) && *cast(pass.$lastfact, *annotations.PackageAnnotations) == unbox(result0, annotations.PackageAnnotations)
@@ -71,7 +91,16 @@ package analyzer
 
 // the @implements checker: exports its fact like the others; without @implements annotations it reports nothing (C09)
 //@ func runImplementsChecker
-//@   props C06 C09 C17 C10
+//@   props C06 C09 C17 C10 C05 C07 C08
+//@   at call PackageAnnotations.ToInterfaceQuery#1 assert $recv == annOf(pass)
+//@   at call PackageAnnotations.ToTypeQuery#1 assert $recv == annOf(pass)
+//@   at call implements.LoadInterfaces#1 assert $arg0 == pass && $arg1 == $ret("PackageAnnotations.ToInterfaceQuery#1")
+//@   at call implements.LoadTypes#1 assert $arg0 == pass && $arg1 == $ret("PackageAnnotations.ToTypeQuery#1")
+//@   at call implements.FindMissingPackages#1 assert $arg0 == annOf(pass).ImplementsAnnotations
+//@   at call implements.FindMissingInterfaces#1 assert $arg0 == annOf(pass).ImplementsAnnotations && $arg1 == $ret("implements.LoadInterfaces#1")
+//@   at call implements.FindMissingMethods#1 assert $arg0 == annOf(pass).ImplementsAnnotations && $arg1 == $ret("implements.LoadInterfaces#1") && $arg2 == $ret("implements.LoadTypes#1")
+//@   at call implements.ReportProblems#1 assert $arg0 == pass && $arg1 == $ret("implements.FindMissingPackages#1") && $arg2 == $ret("implements.FindMissingInterfaces#1") && $arg3 == $ret("implements.FindMissingMethods#1") && $arg4 == ignOf(pass)
+//@   ensures hasAnn(pass) && len(annOf(pass).ImplementsAnnotations) > 0 ==> $called("implements.ReportProblems#1")
 //@   requires driverOK(pass)
 //@   ensures exportsOnce(pass, old(pass.$nexports), tagof(*annotations.ImplementsCheckerFact))
 //@   ensures result0 == nil && result1 == nil
